@@ -1,4 +1,5 @@
 import CnlProofs.Scaled
+import CnlProofs.ScaledFloat
 /-!
 # C04 — integer ↔ integer conversions between `scaled_integer`s preserve the value or truncate toward zero
 
@@ -23,7 +24,30 @@ and the quotient is then wrong: see `unsigned_power_wraps_counterexample`).
   `v ≥ 0` and `den (q-1) < den v ≤ den q` for `v ≤ 0`.
 * `convert_same_exponent` — equal exponents: the built-in conversion of the representation.
 
-The floating-point clauses of C04 are in `CnlModel.ScaledFloat` / the driver oracle, not here.
+## Floating point (radix 2)
+
+Model: `CnlModel.ScaledFloat` — `toFloat f ρ rep e = Float(rep) * power_value<Float, e, ρ>()`,
+`fromFloat f ρ D eD x = static_cast<D>(x * power_value<Float, -eD, ρ>())`, over the IEEE formats `Fmt` of
+`CnlModel.CFloat` (binary32, binary64, x87 extended).  Spec: `CnlSpec.ScaledFloat` (`IsNearestEven`,
+`IsExact`: dyadic rationals compared in a common unit).  All theorems are for **radix 2** (the literal `2`
+in `toFloat f 2 …`); radix 10 is the open class `C04.non_binary_radix_float_not_correctly_rounded`
+(`to_float_radix10_not_correctly_rounded`).  Hypotheses: `FmtOk f` (≥ 2 significand bits, `emin ≤ 0`,
+`prec − 1 ≤ emax`), `PowNormal f e` (`emin ≤ e ≤ emax`, `−e ≤ emax`: the powers `2^e`, `2^|e|` that
+`power_value` computes are normal numbers — then a non-zero `rep · 2^e` is never subnormal),
+`CastFinite f rep` (`Float(rep)` is finite; fails only for 128-bit representations into binary32, see
+`to_float_cast_overflow_counterexample`).
+
+* `to_float_correctly_rounded` — `toFloat f 2 rep e` is the format's round-to-nearest-even of the exact dyadic
+  `rep · 2^e`; when the rounded product is finite (`ProductFinite`) it satisfies `IsNearestEven` (a finite
+  datum; no finite datum is closer; an equally close different datum exists only if the significand is even);
+  otherwise it is the infinity of the sign of `rep`.
+* `to_float_exact` — `|rep| < 2^prec` (or, `to_float_exact_of_significant_bits`, at most `prec` significant
+  bits): the result is exactly `rep · 2^e`.
+* `float_round_trip` — source digits `≤ prec`: scaled → float → the same scaled type is the identity (signed and
+  unsigned representations, zero, negative values, the lowest value `−2^digits`).
+* `from_float_exact_or_truncated` — float → scaled: exact when the value is a multiple of `2^eD`, otherwise
+  truncated toward zero (less than one unit lost, for both signs); undefined (`ub`) when the truncated value does
+  not fit `D`, as `static_cast` of an out-of-range floating value is.
 -/
 namespace Cnl.C04
 open Cnl Cnl.Spec Cnl.Layered Cnl.ScaledP
@@ -124,7 +148,136 @@ theorem unsigned_power_wraps_counterexample :
     Layered.cast (.sc (.int u32) 0 10) (sc u32 (-10) 10 2000000000) = .ok (sc u32 0 10 1)
     ∧ scaleTrunc 10 (-10 - 0) 2000000000 = 0 ∧ ¬ PowFits u32 10 10 ∧ PowOk u32 10 10 := by decide +kernel
 
+/-! ## Floating point, radix 2 -/
+
+section Float
+open Cnl.ScaledFloat Cnl.ScaledFloatSpec Cnl.ScaledFloatP Cnl.FloatP Cnl.FloatFaithful
+
+/-- **scaled → floating point is correctly rounded.**  The result is the format's round-to-nearest-even of the
+exact value `rep · 2^e` (`Fmt.ofDyadic`); if that is finite it is a nearest datum of the format with ties to even
+(`IsNearestEven`, stated on exact dyadics), and otherwise the conversion overflows to `±∞`.
+Rounding `rep` to `prec` bits and then scaling by `2^e` loses nothing further because a non-zero product is
+never subnormal when `2^e` itself is normal. -/
+theorem to_float_correctly_rounded (f : Fmt) (hf : FmtOk f) (rep : Int) (e : Int)
+    (hpw : PowNormal f e) (hc : CastFinite f rep) :
+    toFloat f 2 rep e = f.ofDyadic (decide (rep < 0)) rep.natAbs e
+    ∧ (ProductFinite f rep e → IsNearestEven f rep e (toFloat f 2 rep e))
+    ∧ (¬ ProductFinite f rep e → toFloat f 2 rep e = .inf (decide (rep < 0))) :=
+  ⟨toFloat_eq_ofDyadic f hf rep e hpw hc, toFloat_nearest f hf rep e hpw hc, toFloat_overflow f hf rep e hpw hc⟩
+
+/-- plain sufficient conditions for the two range hypotheses: `|rep| < 2^emax` and `|rep| · 2^e < 2^emax` -/
+theorem to_float_range_sufficient (f : Fmt) (hf : FmtOk f) (rep : Int) (e : Int) :
+    (rep.natAbs < 2^f.emax.toNat → CastFinite f rep)
+    ∧ ((rep.natAbs.log2 : Int) + 1 + e ≤ f.emax → ProductFinite f rep e) :=
+  ⟨castFinite_of_lt f hf, productFinite_of_lt f rep e⟩
+
+/-- at most `prec` significant bits in the representation (`G prec |rep|`: `|rep| = M · 2^t`, `M < 2^prec`):
+the conversion is exact -/
+theorem to_float_exact_of_significant_bits (f : Fmt) (hf : FmtOk f) (rep : Int) (e : Int) (hpw : PowNormal f e)
+    (hG : G f.prec rep.natAbs) (hcast : (rep.natAbs.log2 : Int) ≤ f.emax)
+    (hmax : (rep.natAbs.log2 : Int) + e ≤ f.emax) :
+    IsExact rep e (toFloat f 2 rep e) :=
+  (toFloat_exact f hf rep e hpw hG hcast hmax).2
+
+/-- **the destination has at least as many significand digits as the value uses**: exactly `rep · 2^e` -/
+theorem to_float_exact (f : Fmt) (hf : FmtOk f) (rep : Int) (e : Int) (hpw : PowNormal f e)
+    (hbits : rep.natAbs < 2^f.prec) (hmax : (rep.natAbs.log2 : Int) + e ≤ f.emax) :
+    IsExact rep e (toFloat f 2 rep e) := by
+  have hp := prec_pos hf
+  have hL : rep.natAbs.log2 < f.prec ∨ rep.natAbs = 0 := by
+    by_cases h0 : rep.natAbs = 0
+    · exact Or.inr h0
+    · exact Or.inl (log2_lt_prec h0 hbits)
+  have hcast : (rep.natAbs.log2 : Int) ≤ f.emax := by
+    have := hf.2.2
+    rcases hL with h | h
+    · omega
+    · rw [h]; simp [Nat.log2_zero]; omega
+  exact to_float_exact_of_significant_bits f hf rep e hpw (G_of_lt hp hbits) hcast hmax
+
+/-- **round trip**: a scaled integer whose representation type `S` has at most `prec` digits, converted to the
+floating type and back to the same scaled type, is unchanged -/
+theorem float_round_trip (f : Fmt) (hf : FmtOk f) (S : IntTy) (rep : Int) (e : Int)
+    (hv : S.InRange rep) (hd : S.digits ≤ f.prec)
+    (hpw : PowNormal f e) (hpf : PowF f e)
+    (hcast : (S.digits : Int) ≤ f.emax) (hmax : (S.digits : Int) + e ≤ f.emax) :
+    fromFloat f 2 S e (toFloat f 2 rep e) = .ok rep := by
+  have hL := log2_le_of_inRange hv (Int.le_refl (S.digits : Int))
+  exact round_trip f hf S rep e hpw hpf (G_of_inRange hv (prec_pos hf) hd) (by omega) (by omega) hv
+
+/-- **floating point → scaled**: `x = (-1)^s · m · 2^e` (any finite value of the format, `m < 2^prec`, subnormals
+included) converts to `x / 2^eD` exactly when that is an integer and otherwise to its truncation toward zero;
+the conversion is undefined when that integer does not fit `D` (`intoRange`) -/
+theorem from_float_exact_or_truncated (f : Fmt) (hf : FmtOk f) (hneg : f.emin < 0) (D : IntTy) (eD : Int)
+    (hp : PowF f eD) (s : Bool) (m : Nat) (e : Int) (hx : ScaleFits f eD m e) :
+    (eD ≤ e → fromFloat f 2 D eD (.fin s m e) = intoRange D (sval s m * 2^(e - eD).toNat))
+    ∧ (e < eD →
+        fromFloat f 2 D eD (.fin s m e) = intoRange D ((sval s m).tdiv (2^(eD - e).toNat))
+        ∧ (0 ≤ sval s m → 0 ≤ (sval s m).tdiv (2^(eD - e).toNat)
+              ∧ (sval s m).tdiv (2^(eD - e).toNat) * 2^(eD - e).toNat ≤ sval s m
+              ∧ sval s m < (sval s m).tdiv (2^(eD - e).toNat) * 2^(eD - e).toNat + 2^(eD - e).toNat)
+        ∧ (sval s m ≤ 0 → (sval s m).tdiv (2^(eD - e).toNat) ≤ 0
+              ∧ sval s m ≤ (sval s m).tdiv (2^(eD - e).toNat) * 2^(eD - e).toNat
+              ∧ (sval s m).tdiv (2^(eD - e).toNat) * 2^(eD - e).toNat - 2^(eD - e).toNat < sval s m)
+        ∧ (∀ q : Int, sval s m = q * 2^(eD - e).toNat → (sval s m).tdiv (2^(eD - e).toNat) = q)) := by
+  have hev := fromFloat_fits f hf hneg D eD hp s m e hx
+  constructor
+  · intro h
+    have h0 : 0 ≤ e - eD := by omega
+    rw [hev]; simp only [roundDyadic, h0, ite_true]
+  · intro h
+    have h0 : ¬ 0 ≤ e - eD := by omega
+    have en : (-(e - eD)).toNat = (eD - e).toNat := by congr 1; omega
+    have hpos := two_pow_pos (eD - e).toNat
+    have htz := tdiv_toward_zero (sval s m) (2^(eD - e).toNat) hpos
+    refine ⟨?_, htz.1, htz.2, fun q hq => ?_⟩
+    · rw [hev]; simp only [roundDyadic, h0, ite_false, roundShift, en]
+    · rw [hq]; exact Int.mul_tdiv_cancel q (by omega)
+
+/-- **Outside the radix hypothesis** (open class `C04.non_binary_radix_float_not_correctly_rounded`; witness
+`C04 tof 10 i16 -1 f64 -32767`): `scaled_integer<int16_t, power<-1, 10>>` with representation `-32767` converts
+to `double` as `-32767 · (1/10)` — two roundings — one unit in the last place away from the correctly rounded
+`-3276.7` -/
+theorem to_float_radix10_not_correctly_rounded :
+    toFloat binary64 10 (-32767) (-1) = .fin true 0x19996666666667 (-41)
+    ∧ binary64.roundND true 32767 10 = .fin true 0x19996666666666 (-41) := by decide +kernel
+
+/-- **Outside `CastFinite`**: a 128-bit representation can exceed the largest binary32 value, the cast to `float`
+overflows before the scaling, and the result is `∞` although `rep · 2^e` is far inside the range -/
+theorem to_float_cast_overflow_counterexample :
+    toFloat binary32 2 (2^128 - 1) (-10) = .inf false
+    ∧ binary32.ofDyadic false (2^128 - 1) (-10) = .fin false 8388608 95
+    ∧ ¬ CastFinite binary32 (2^128 - 1) ∧ PowNormal binary32 (-10) := by decide +kernel
+
+end Float
+
 /-! Non-vacuity -/
+
+section FloatExamples
+open Cnl.ScaledFloat Cnl.ScaledFloatSpec Cnl.ScaledFloatP Cnl.FloatP Cnl.FloatFaithful
+-- 16777217 = 2^24 + 1 has 25 significant bits: binary32 must round (a tie, to even); the product is finite
+example : FmtOk binary32 ∧ PowNormal binary32 (-3) ∧ CastFinite binary32 16777217 ∧ ProductFinite binary32 16777217 (-3) := by
+  decide +kernel
+example : toFloat binary32 2 16777217 (-3) = .fin false 8388608 (-2) := by decide +kernel
+example : IsNearestEven binary32 16777217 (-3) (toFloat binary32 2 16777217 (-3)) :=
+  (to_float_correctly_rounded binary32 fmtOk_binary32 16777217 (-3) (by decide) (by decide +kernel)).2.1 (by decide +kernel)
+-- overflow: 3 · 2^127 exceeds the largest binary32 value
+example : PowNormal binary32 127 ∧ CastFinite binary32 (-3) ∧ ¬ ProductFinite binary32 (-3) 127
+    ∧ toFloat binary32 2 (-3) 127 = .inf true := by decide +kernel
+-- exact: -12345 has 14 bits
+example : IsExact (-12345) (-7) (toFloat binary32 2 (-12345) (-7)) :=
+  to_float_exact binary32 fmtOk_binary32 (-12345) (-7) (by decide) (by decide +kernel) (by decide +kernel)
+example : toFloat binary32 2 (-12345) (-7) = .fin true 12641280 (-17) := by decide +kernel
+-- round trip through binary32 for a 16-bit and through x87 extended for an unsigned 64-bit representation
+example : fromFloat binary32 2 i16 (-7) (toFloat binary32 2 (-32768) (-7)) = .ok (-32768) :=
+  float_round_trip binary32 fmtOk_binary32 i16 (-32768) (-7) (by decide) (by decide) (by decide) (by decide) (by decide) (by decide)
+example : fromFloat x87ext 2 u64 20 (toFloat x87ext 2 18446744073709551615 20) = .ok 18446744073709551615 :=
+  float_round_trip x87ext fmtOk_x87ext u64 18446744073709551615 20 (by decide +kernel) (by decide) (by decide) (by decide) (by decide) (by decide)
+-- float → scaled: -5.75 = -23 · 2^-2 at resolution 2^-1 is -11 (= -5.5, toward zero); at resolution 2^-3 it is exact
+example : ScaleFits binary32 (-1) 23 (-2) ∧ PowF binary32 (-1)
+    ∧ fromFloat binary32 2 i8 (-1) (.fin true 23 (-2)) = .ok (-11)
+    ∧ fromFloat binary32 2 i8 (-3) (.fin true 23 (-2)) = .ok (-46) := by decide +kernel
+end FloatExamples
 
 -- narrowing conversion of a negative value: -7·2^-2 = -1.75 → -1 (toward zero), into 8 bits
 example : Layered.cast (.sc (.int i8) 0 2) (sc i32 (-2) 2 (-7)) = .ok (sc i8 0 2 (-1)) := by decide
